@@ -1,4 +1,14 @@
 import Abyss.Props.C11
+import Abyss.Lemmas.RegistryGenL
+#print axioms Abyss.dbMapU64WithParams_eq
+#print axioms Abyss.dbMapVu64WithParams_eq
+#print axioms Abyss.dbMapBytesWithParams_eq
+#print axioms Abyss.dbMapStringWithParams_eq
+#print axioms Abyss.dbMapI64WithParams_eq
+#print axioms Abyss.openSpec_frame
+#print axioms Abyss.openSpec_again
+#print axioms Abyss.fileName_inj
+#print axioms Abyss.mapFileNames_nodup
 #print axioms Abyss.C11_frame
 #print axioms Abyss.C11_frame_files
 #print axioms Abyss.C11_step_local
